@@ -350,6 +350,20 @@ func ruleC07R2(c *Ctx) {
 	} else {
 		c.R.Bad(rule, "merge:success-only", c.pos(offending), "code that can still fail or branch executes after the frame's annotations were merged into the caller's; annotations of a failed subschema would leak")
 	}
+	// the hand-over is conditional on nothing but the caller wanting it (callerAnns != nil): every success exit that
+	// was asked for annotations delivers them, whatever else is known about the schema (a "nobody uses annotations"
+	// flag computed per document is wrong as soon as another document does)
+	var extra []string
+	for _, g := range skipGuards(mg) {
+		if x, k, _, ok := eqConst(g); ok && k.IsNil() && isParamOrLoad(x, m.annsParam) {
+			continue
+		}
+		if isErrNilTest(g.Cond) {
+			continue
+		}
+		extra = append(extra, c.pos(g.At))
+	}
+	c.R.Check(len(extra) == 0, rule, "merge:unconditional-on-success", c.pos(mg), "on success the frame's annotations are handed to every caller that asked for them", fmt.Sprintf("the hand-over of the frame's annotations to the caller can be skipped under further conditions (guards at %v): what this schema evaluated is then invisible to the caller's unevaluatedProperties/unevaluatedItems", extra))
 	// every return on a failure path precedes the merge: all other returns are not reachable from the merge (checked above); and the merge is not inside a loop
 	c.R.Check(!core.Reachable(mg.Block(), mg.Block(), nil), rule, "merge:once", c.pos(mg), "the merge is not in a loop", "the merge can execute more than once per activation")
 	_ = bad
